@@ -68,6 +68,23 @@ inline void bulk(PolyMesh &m, const Op &op, IoStats &is) {
   static const size_t vb[8] = {254, 255, 256, 257, 65534, 65535, 65536, 65537};
   static const size_t eb[6] = {127, 128, 129, 32767, 32768, 32769};
   size_t t;
+  if (op.a[0] % 4 == 3) {
+    // valence boundaries: one polygon with 254..257 halfedges and a cone over it (a cell with n+1 halffaces), so the
+    // valence encodings chosen from the largest face / cell valence cross the 8-bit boundary
+    static const size_t nb[4] = {254, 255, 256, 257};
+    size_t n = nb[op.a[1] % 4];
+    std::vector<VertexHandle> ring;
+    for (size_t i = 0; i < n; ++i) ring.push_back(m.add_vertex(Vec3d(std::cos(6.283185307 * (double)i / (double)n), std::sin(6.283185307 * (double)i / (double)n), 50.0)));
+    FaceHandle base = m.add_face(ring);
+    if (op.a[2] % 2) {
+      VertexHandle apex = m.add_vertex(Vec3d(0, 0, 51));
+      std::vector<HalfFaceHandle> hfs{m.halfface_handle(base, 1)};
+      for (size_t i = 0; i < n; ++i) hfs.push_back(m.halfface_handle(m.add_face(std::vector<VertexHandle>{ring[i], ring[(i + 1) % n], apex}), 0));
+      m.add_cell(hfs, true);
+    }
+    ++is.boundary;
+    return;
+  }
   switch (op.a[0] % 3) {
   case 0:
     t = vb[op.a[1] % ((op.a[2] % 8 == 0) ? 8 : 4)];
@@ -111,8 +128,14 @@ template <class M> std::vector<IOProp> apply_prop_ops(M &m, const Program &prog,
       annot[i] = "persistent " + props.back().type_name + " property '" + name + "' on entity kind " + std::to_string(props.back().ent);
     } else if (op.code == O_PROP_WRITE && !props.empty()) {
       IOProp &p = props[(size_t)op.a[0] % props.size()];
-      p.write(m, (size_t)op.a[1] * 7 + (size_t)op.a[3], op.a[2]);
-      annot[i] = "write '" + p.name + "'";
+      if (op.a[4] % 4 == 0) {  // a run of consecutive elements with one value (all-equal groups matter to bit-packed / run codecs)
+        size_t len = 8 + (size_t)op.a[3] % 17, start = (size_t)op.a[1] % 24;
+        for (size_t k = 0; k < len; ++k) if (start + k < p.size(m)) p.write(m, start + k, op.a[2]);
+        annot[i] = "write a run of " + std::to_string(len) + " elements of '" + p.name + "' from " + std::to_string(start);
+      } else {
+        p.write(m, (size_t)op.a[1] * 7 + (size_t)op.a[3], op.a[2]);
+        annot[i] = "write '" + p.name + "'";
+      }
     }
   }
   return props;
